@@ -62,6 +62,20 @@ def gen_matrix(ctx, rng, square=False, hermitian=False, allow_qtotal=True, tall=
         if hermitian:
             d = d + d.conj().T
         a = npc.Array.from_ndarray(d, legs, qtotal=qt, labels=['a', 'b'], cutoff=0.)
+        if rng.random() < 0.35 and a.stored_blocks:
+            # charge sectors without any stored block (as after ipurge_zeros, or for operators assembled from outer products)
+            for _ in range(int(rng.integers(1, 3))):
+                k_ = int(rng.integers(a.stored_blocks))
+                qi, qj = [int(x) for x in a._qdata[k_]]
+                si, sj = l0.get_slice(qi), l1.get_slice(qj)
+                d[si, sj] = 0
+                d[sj, si] = 0  # (keeps a Hermitian matrix Hermitian; the transposed block has the same charges for partner legs)
+            mask2 = gen.charge_mask([gen.leg_qflat(l) for l in legs], [l.qconj for l in legs], qt, mod)
+            d = np.where(mask2, d, 0)
+            a = npc.Array.from_ndarray(d, legs, qtotal=qt, labels=['a', 'b'], cutoff=0.)
+            a.ipurge_zeros()  # (from_ndarray stores every charge-compatible block, also blocks of zeros)
+            feats.add('unstored_sector')
+            ctx.count('feature.square_with_unstored_sector')
         feats.add('square')
     elif piped:
         # rank 3/4 tensor, then combine legs => pipe legs on the matrix
